@@ -112,3 +112,9 @@ Inductive accepts (thr lim : Z) : ast -> list event -> ast -> Prop :=
 | acc_nil a : accepts thr lim a [] a
 | acc_ev a ev a1 evs a2 : astep thr lim a ev a1 -> accepts thr lim a1 evs a2 -> accepts thr lim a (ev :: evs) a2
 | acc_tau a a1 evs a2 : arot a a1 -> accepts thr lim a1 evs a2 -> accepts thr lim a evs a2.
+
+(* table sanity used by the drain theorem: Irc.die() closes the driver at once
+   under the test  not self.afterConnect  and no other (what Model.die mirrors) *)
+Definition die_test_pinned : bool :=
+  seq_eqb gen.T19.DIE_AT_ONCE_TEST
+    [110; 111; 116; 32; 115; 101; 108; 102; 46; 97; 102; 116; 101; 114; 67; 111; 110; 110; 101; 99; 116]%N.
